@@ -52,15 +52,22 @@ def c14(tier):
     recs2 = run_harness(plain, "conc", dict(inp, only="cancel", rounds=3 * rounds), shards=8, tolerate_crash=True, timeout=2400)
     if len(lib.CRASHED) > len(crashed_before) and not races:
         raise Inconclusive("conc harness (plain binary) failed: %s" % lib.CRASHED[-1][2][-1500:])
-    recs = recs + [x for x in recs2 if "cancel_round" in x]
+    recs = recs + [x for x in recs2 if "cancel_round" in x or "burst_round" in x]
     want_cancel = rounds // 3 + rounds
     got = 0
     mixed = 0
-    cancel_rounds = abandoned = 0
+    cancel_rounds = abandoned = bursts = 0
     for x in recs:
         if "mixed" in x:
             mixed += 1
             ck.evaluations += x["requests"]
+            continue
+        if "burst_round" in x:
+            bursts += 1
+            ck.evaluations += x["requests"]
+            if x["different"]:
+                ck.violation("%d of %d checks released together answered differently from the same check run alone (%d of them had not returned after 20 s)"
+                             % (x["different"], x["requests"], x["not_returned_in_20s"]), {"round": x["burst_round"], "first_difference": x["first"]})
             continue
         if "cancel_round" in x:
             cancel_rounds += 1
@@ -86,12 +93,15 @@ def c14(tier):
     ck.extra["rounds"] = got
     ck.extra["mixed_read_write_rounds"] = mixed
     ck.extra["rounds_with_abandoned_requests"] = cancel_rounds
+    ck.extra["bursts_of_320_nested_checks_in_flight_together"] = bursts
+    if bursts == 0 and not races:
+        raise Inconclusive("no burst round ran")
     ck.extra["requests_that_failed_because_their_client_gave_up"] = abandoned
     if cancel_rounds < want_cancel and not races:
         raise Inconclusive("only %d of %d rounds with abandoned requests ran" % (cancel_rounds, want_cancel))
     ck.extra["race_reports"] = len(races)
     ck.rule = ("%d rounds of %d requests (check, batch check, expand, list over REST and gRPC) released by a barrier against a registry that has served nothing yet, in a binary built "
-               "with -race; every second round is followed by a round on a fresh registry in which a third of the requests are writes (REST put / patch / delete, gRPC transact; race detector and crashes only); every third round additionally runs on a fresh registry with half of the clients giving up 5%%..95%% of the way through their request (measured alone) next to requests that run to completion, followed by a sequential pass, both compared with answers computed before any request was abandoned (these rounds run on one, two and all processors, and three times as many of them once more in a binary without the race detector); each reply of the read-only rounds is compared with the same request run alone, the visited sets recorded through hook H1 are compared as multisets; non-trivial: rounds in which checks expanded subject sets" % (rounds, par))
+               "with -race; every second round is followed by a round on a fresh registry in which a third of the requests are writes (REST put / patch / delete, gRPC transact; race detector and crashes only); every third round additionally runs on a fresh registry with half of the clients giving up 5%%..95%% of the way through their request (measured alone) next to requests that run to completion, followed by a sequential pass, both compared with answers computed before any request was abandoned (these rounds run on one, two and all processors, and three times as many of them once more in a binary without the race detector); bursts of 320 nested checks parked at their first storage call until all are in flight, then released, each to answer as alone within 20 s; each reply of the read-only rounds is compared with the same request run alone, the visited sets recorded through hook H1 are compared as multisets; non-trivial: rounds in which checks expanded subject sets" % (rounds, par))
     ck.assumptions = ["data-race freedom is observed with Go's race detector on the spec-generated workload, not derived from the TLA+ model",
                       "sqlite in-memory backend only"]
     ck.finish()
